@@ -1,5 +1,869 @@
+//! ADF family (C01-C05, C09-C11): generated frameworks, every semantics entry point on every
+//! back-end. Native-store pipelines are compared handle for handle with the Lean model (`=`),
+//! every answer additionally as canonical T/F/u strings with the brute-force specification (`~`).
+use crate::fam_bdd::{dump_nodes, truth_table};
 use crate::{rng::Rng, Out};
-pub fn gen(_r: &mut Rng, _cases: usize, _size: usize, _extra: &[String], _out: &mut Out) {}
+use adf_bdd::adf::heuristics::Heuristic;
+use adf_bdd::adf::Adf;
+use adf_bdd::adfbiodivine::Adf as BdAdf;
+use adf_bdd::datatypes::{Term, Var};
+use adf_bdd::parser::AdfParser;
+use std::panic::{catch_unwind, AssertUnwindSafe};
+use std::sync::atomic::{AtomicU64, Ordering};
+use std::sync::Mutex;
+
+#[derive(Clone, Debug)]
+pub enum F {
+    Top,
+    Bot,
+    Atom(usize),
+    Not(Box<F>),
+    And(Box<F>, Box<F>),
+    Or(Box<F>, Box<F>),
+    Imp(Box<F>, Box<F>),
+    Xor(Box<F>, Box<F>),
+    Iff(Box<F>, Box<F>),
+}
+
+pub fn gen_f(r: &mut Rng, n: usize, d: u32) -> F {
+    let k = if d == 0 { r.below(10) } else { r.below(22) };
+    let mut sub = |r: &mut Rng| Box::new(gen_f(r, n, d.saturating_sub(1)));
+    match k {
+        0 => F::Top,
+        1 => F::Bot,
+        2..=9 => F::Atom(r.usize(n)),
+        10 | 11 | 12 => F::Not(sub(r)),
+        13 | 14 | 15 => F::And(sub(r), sub(r)),
+        16 | 17 => F::Or(sub(r), sub(r)),
+        18 | 19 => F::Imp(sub(r), sub(r)),
+        20 => F::Xor(sub(r), sub(r)),
+        _ => F::Iff(sub(r), sub(r)),
+    }
+}
+
+pub fn text(f: &F, names: &[String]) -> String {
+    match f {
+        F::Top => "c(v)".into(),
+        F::Bot => "c(f)".into(),
+        F::Atom(i) => names[*i].clone(),
+        F::Not(a) => format!("neg({})", text(a, names)),
+        F::And(a, b) => format!("and({},{})", text(a, names), text(b, names)),
+        F::Or(a, b) => format!("or({},{})", text(a, names), text(b, names)),
+        F::Imp(a, b) => format!("imp({},{})", text(a, names), text(b, names)),
+        F::Xor(a, b) => format!("xor({},{})", text(a, names), text(b, names)),
+        F::Iff(a, b) => format!("iff({},{})", text(a, names), text(b, names)),
+    }
+}
+
+pub fn toks(f: &F) -> String {
+    match f {
+        F::Top => "T".into(),
+        F::Bot => "F".into(),
+        F::Atom(i) => format!("a{i}"),
+        F::Not(a) => format!("not {}", toks(a)),
+        F::And(a, b) => format!("and {} {}", toks(a), toks(b)),
+        F::Or(a, b) => format!("or {} {}", toks(a), toks(b)),
+        F::Imp(a, b) => format!("imp {} {}", toks(a), toks(b)),
+        F::Xor(a, b) => format!("xor {} {}", toks(a), toks(b)),
+        F::Iff(a, b) => format!("iff {} {}", toks(a), toks(b)),
+    }
+}
+
+pub fn parse_toks(ws: &[&str], pos: &mut usize) -> Option<F> {
+    let w = *ws.get(*pos)?;
+    *pos += 1;
+    Some(match w {
+        "T" => F::Top,
+        "F" => F::Bot,
+        "not" => F::Not(Box::new(parse_toks(ws, pos)?)),
+        "and" | "or" | "imp" | "xor" | "iff" => {
+            let a = Box::new(parse_toks(ws, pos)?);
+            let b = Box::new(parse_toks(ws, pos)?);
+            match w {
+                "and" => F::And(a, b),
+                "or" => F::Or(a, b),
+                "imp" => F::Imp(a, b),
+                "xor" => F::Xor(a, b),
+                _ => F::Iff(a, b),
+            }
+        }
+        _ => F::Atom(w.strip_prefix('a')?.parse().ok()?),
+    })
+}
+
+fn conj(mut xs: Vec<F>) -> F {
+    let mut acc = xs.pop().unwrap_or(F::Top);
+    while let Some(x) = xs.pop() {
+        acc = F::And(Box::new(x), Box::new(acc));
+    }
+    acc
+}
+
+/// adversarial families that random generation under-produces
+pub fn gen_family(r: &mut Rng, n: usize) -> Vec<F> {
+    let at = |i: usize| F::Atom(i % n);
+    let not = |f: F| F::Not(Box::new(f));
+    match r.below(8) {
+        // propagation chain needing n grounding rounds (random direction, random polarity)
+        0 => {
+            let rev = r.bool();
+            (0..n)
+                .map(|i| {
+                    let prev = if rev { i + 1 } else { i + n - 1 };
+                    let first = if rev { i == n - 1 } else { i == 0 };
+                    if first {
+                        if r.bool() { F::Top } else { F::Bot }
+                    } else if r.bool() {
+                        at(prev)
+                    } else {
+                        not(at(prev))
+                    }
+                })
+                .collect()
+        }
+        // self support
+        1 => (0..n).map(|i| if r.chance(2, 3) { at(i) } else { gen_f(r, n, 1) }).collect(),
+        // attack cycle (odd or even)
+        2 => (0..n).map(|i| not(at(i + 1))).collect(),
+        // false-before-true dependencies
+        3 => (0..n)
+            .map(|i| {
+                if i == 0 {
+                    F::Bot
+                } else {
+                    F::Or(Box::new(not(at(i - 1))), Box::new(gen_f(r, n, 1)))
+                }
+            })
+            .collect(),
+        // conditions that become constant only under grounding
+        4 => (0..n)
+            .map(|i| {
+                if i == 0 {
+                    F::Top
+                } else {
+                    F::And(Box::new(at(0)), Box::new(F::Or(Box::new(at(i)), Box::new(not(at(i))))))
+                }
+            })
+            .collect(),
+        // all decided
+        5 => (0..n).map(|_| if r.bool() { F::Top } else { F::Bot }).collect(),
+        // many two-valued models: xor / iff webs
+        6 => (0..n)
+            .map(|i| {
+                if r.bool() {
+                    F::Iff(Box::new(at(i)), Box::new(at(i + 1)))
+                } else {
+                    F::Xor(Box::new(at(i + 1)), Box::new(at(i + 2)))
+                }
+            })
+            .collect(),
+        // conjunctive support sets whose cubes conflict with earlier decisions
+        _ => (0..n)
+            .map(|i| {
+                let k = r.range(1, 3.min(n));
+                conj((0..k).map(|_| if r.bool() { at(r.usize(n)) } else { not(at(r.usize(n))) }).chain(std::iter::once(at(i))).collect())
+            })
+            .collect(),
+    }
+}
+
+const HEUS: [&str; 3] = ["Simple", "MinModMinPathsMaxVarImp", "MinModMaxVarImpMinPaths"];
+
+pub fn gen(r: &mut Rng, cases: usize, size: usize, extra: &[String], out: &mut Out) {
+    let maxn = if size == 0 { 6 } else { size };
+    let profile = extra.first().map(|s| s.as_str()).unwrap_or("sem");
+    for case in 0..cases {
+        out.line(&format!("case adf-{profile}-{case}"));
+        let (n, acs): (usize, Vec<F>) = if profile == "large" {
+            let n = r.range(maxn / 2, maxn);
+            (n, (0..n).map(|_| { let d = r.range(5, 11) as u32; gen_f(r, n, d) }).collect())
+        } else if case % 97 == 0 && profile != "hist" {
+            // the two pre-study instances
+            let a = F::Atom;
+            if r.bool() {
+                (3, vec![a(2), F::And(Box::new(a(1)), Box::new(a(0))), a(2)])
+            } else {
+                (3, vec![a(0), a(1), a(2)])
+            }
+        } else {
+            let n = r.range(1, maxn);
+            if r.chance(2, 5) {
+                (n, gen_family(r, n))
+            } else {
+                let d = r.range(1, 4) as u32;
+                (n, (0..n).map(|_| gen_f(r, n, d)).collect())
+            }
+        };
+        out.line(&format!("adf {n}"));
+        for (i, f) in acs.iter().enumerate() {
+            out.line(&format!("ac {i} {}", toks(f)));
+        }
+        match profile {
+            "sem" => {
+                for p in ["native", "hybrid", "hybridpre", "bio"] {
+                    out.line(&format!("build {p}"));
+                }
+                let mut reqs: Vec<String> = Vec::new();
+                for p in ["native", "hybrid", "hybridpre", "bio"] {
+                    reqs.push(format!("grounded {p}"));
+                    reqs.push(format!("complete {p}"));
+                    reqs.push(format!("stable {p}"));
+                }
+                for p in ["native", "hybrid", "hybridpre"] {
+                    reqs.push(format!("stablepre {p}"));
+                }
+                reqs.push("stablerew native".into());
+                reqs.push("stablerew bio".into());
+                reqs.push("stablerew2 bio".into());
+                // random order: the answers must not depend on what was computed before
+                for i in (1..reqs.len()).rev() {
+                    reqs.swap(i, r.usize(i + 1));
+                }
+                for q in reqs {
+                    out.line(&q);
+                }
+                out.line("adump native");
+            }
+            "count" => {
+                for p in ["native", "hybrid", "hybridpre"] {
+                    out.line(&format!("build {p}"));
+                    if r.bool() {
+                        out.line(&format!("stmca {p}"));
+                        out.line(&format!("stmcb {p}"));
+                    } else {
+                        out.line(&format!("stmcb {p}"));
+                        out.line(&format!("stmca {p}"));
+                    }
+                    out.line(&format!("adump {p}"));
+                }
+            }
+            "ng" => {
+                for p in ["native", "hybrid"] {
+                    out.line(&format!("build {p}"));
+                }
+                for h in HEUS {
+                    out.line(&format!("ng native {h} stable"));
+                    out.line(&format!("ng native {h} twoval"));
+                }
+                for _ in 0..4 {
+                    let mode = if r.bool() { "stable" } else { "twoval" };
+                    let p = if r.chance(1, 4) { "hybrid" } else { "native" };
+                    out.line(&format!("ng {p} Script:{} {mode}", r.below(1 << 30)));
+                }
+                for _ in 0..3 {
+                    let mode = if r.bool() { "stable" } else { "twoval" };
+                    out.line(&format!("ng native Rand:{} {mode}", r.below(1 << 30)));
+                }
+                out.line(&format!("ngch native {} stable", HEUS[r.usize(3)]));
+                out.line(&format!("ngch native Script:{} twoval", r.below(1 << 30)));
+                out.line("adump native");
+            }
+            "large" => {
+                for p in ["native", "hybrid", "hybridpre"] {
+                    out.line(&format!("build {p}"));
+                }
+                out.line("adump native");
+            }
+            "present" => {
+                // metamorphic presentations of the same framework: fact order x sorting x naming x layout
+                for _ in 0..5 {
+                    let mut perm: Vec<usize> = (0..2 * n).collect();
+                    for i in (1..perm.len()).rev() {
+                        perm.swap(i, r.usize(i + 1));
+                    }
+                    let sort = ["none", "lx", "an"][r.usize(3)];
+                    out.line(&format!(
+                        "present {} {sort} {} {}",
+                        perm.iter().map(|x| x.to_string()).collect::<Vec<_>>().join(","),
+                        r.below(1 << 30),
+                        r.below(1 << 30)
+                    ));
+                }
+            }
+            _ => {
+                // "hist": random call histories on one object, then probes compared with a fresh object
+                let p = ["native", "hybrid", "hybridpre"][r.usize(3)];
+                out.line(&format!("build {p}"));
+                let calls = r.range(2, 10);
+                let menu = ["grounded", "complete", "stable", "stablepre", "stmca", "stmcb", "ngS", "ngA", "ngB", "ngScript", "extra", "counts"];
+                let emit = |r: &mut Rng, out: &mut Out, c: &str| match c {
+                    "ngS" => out.line(&format!("ng {p} Simple stable")),
+                    "ngA" => out.line(&format!("ng {p} MinModMinPathsMaxVarImp twoval")),
+                    "ngB" => out.line(&format!("ng {p} MinModMaxVarImpMinPaths stable")),
+                    "ngScript" => out.line(&format!("ng {p} Script:{} stable", r.below(1 << 20))),
+                    "extra" => out.line(&format!("extraformula {p} {}", toks(&gen_f(r, n, 3)))),
+                    "counts" => out.line(&format!("counts {p}")),
+                    c => out.line(&format!("{c} {p}")),
+                };
+                for _ in 0..calls {
+                    let c = menu[r.usize(menu.len())];
+                    emit(r, out, c);
+                }
+                // probes: the same calls on a freshly built twin must give the same canonical answers
+                out.line(&format!("build {p}fresh"));
+                for c in ["grounded", "complete", "stable", "stmca", "ngS", "ngB"] {
+                    let line_old = match c {
+                        "ngS" => format!("ng {p} Simple stable"),
+                        "ngB" => format!("ng {p} MinModMaxVarImpMinPaths stable"),
+                        c => format!("{c} {p}"),
+                    };
+                    out.line(&line_old);
+                    out.line(&line_old.replace(&format!(" {p}"), &format!(" {p}fresh")));
+                }
+                out.line(&format!("memo {p}"));
+            }
+        }
+    }
+}
+
+// ------------------------------------------------------------------------------------------------
+
+pub fn tfu(v: &[Term]) -> String {
+    v.iter()
+        .map(|t| if !t.is_truth_value() { 'u' } else if t.is_true() { 'T' } else { 'F' })
+        .collect()
+}
+
+pub fn vec_s(v: &[Term]) -> String {
+    if v.is_empty() {
+        return "[]".into();
+    }
+    v.iter().map(|t| t.value().to_string()).collect::<Vec<_>>().join(" ")
+}
+
+pub fn vecs_s(vs: &[Vec<Term>]) -> String {
+    if vs.is_empty() {
+        "-".into()
+    } else {
+        vs.iter().map(|v| vec_s(v)).collect::<Vec<_>>().join(" | ")
+    }
+}
+
+pub fn set_s(vs: &[Vec<Term>]) -> String {
+    let mut xs: Vec<String> = vs.iter().map(|v| tfu(v)).collect();
+    xs.sort();
+    if xs.is_empty() {
+        "-".into()
+    } else {
+        xs.join(" ")
+    }
+}
+
+pub fn seq_s(vs: &[Vec<Term>]) -> String {
+    if vs.is_empty() {
+        "-".into()
+    } else {
+        vs.iter().map(|v| tfu(v)).collect::<Vec<_>>().join(" ")
+    }
+}
+
+static TRACE: Mutex<Vec<Vec<Term>>> = Mutex::new(Vec::new());
+static CALLS: AtomicU64 = AtomicU64::new(0);
+static SCRIPT_SEED: AtomicU64 = AtomicU64::new(0);
+
+fn splitmix(x: u64) -> u64 {
+    let mut z = x.wrapping_add(0x9E3779B97F4A7C15);
+    z = (z ^ (z >> 30)).wrapping_mul(0xBF58476D1CE4E5B9);
+    z = (z ^ (z >> 27)).wrapping_mul(0x94D049BB133111EB);
+    z ^ (z >> 31)
+}
+
+/// scripted custom heuristic: a PRNG-chosen (undecided statement, value) per call; logs what it was shown
+fn script_heu(_adf: &Adf, interp: &[Term]) -> Option<(Var, Term)> {
+    TRACE.lock().unwrap().push(interp.to_vec());
+    let time = CALLS.fetch_add(1, Ordering::SeqCst);
+    let und: Vec<usize> = interp.iter().enumerate().filter(|(_, t)| !t.is_truth_value()).map(|(i, _)| i).collect();
+    if und.is_empty() {
+        return None;
+    }
+    let r = splitmix(SCRIPT_SEED.load(Ordering::SeqCst).wrapping_add(time.wrapping_mul(0x2545F4914F6CDD1D)));
+    let k = (r % und.len() as u64) as usize;
+    let b = (r >> 33) & 1 == 1;
+    Some((Var(und[k]), if b { Term::TOP } else { Term::BOT }))
+}
+
 #[derive(Default)]
-pub struct Exec {}
-impl Exec { pub fn exec(&mut self, _ws: &[&str], _l: &str, _out: &mut Out) -> bool { false } }
+pub struct Exec {
+    n: usize,
+    acs: Vec<F>,
+    native: Vec<(String, Adf)>,
+    bio: Option<BdAdf>,
+}
+
+impl Exec {
+    fn names(&self) -> Vec<String> {
+        (0..self.n).map(|i| format!("x{i}")).collect()
+    }
+
+    fn source(&self) -> &'static str {
+        let names = self.names();
+        let mut txt = String::new();
+        for nm in &names {
+            txt += &format!("s({nm}).");
+        }
+        for (i, f) in self.acs.iter().enumerate() {
+            txt += &format!("ac({},{}).", names[i], text(f, &names));
+        }
+        Box::leak(txt.into_boxed_str())
+    }
+
+    /// the parser borrows its input for its whole life, so text and parser are leaked (small, per case)
+    fn parser(&self) -> Option<&'static AdfParser<'static>> {
+        let parser: &'static AdfParser<'static> = Box::leak(Box::new(AdfParser::default()));
+        if self.n == 0 {
+            return Some(parser);
+        }
+        let src = self.source();
+        let ok = parser.parse()(src).is_ok();
+        if ok {
+            Some(parser)
+        } else {
+            None
+        }
+    }
+
+    fn adf(&mut self, p: &str) -> Option<&mut Adf> {
+        self.native.iter_mut().find(|(k, _)| k == p).map(|(_, a)| a)
+    }
+
+    fn build(&mut self, p: &str, out: &mut Out) {
+        let base = p.strip_suffix("fresh").unwrap_or(p);
+        let parser = match self.parser() {
+            Some(x) => x,
+            None => {
+                out.line("= parse-error");
+                return;
+            }
+        };
+        self.native.retain(|(k, _)| k != p);
+        match base {
+            "native" => {
+                let adf = Adf::from_parser(parser);
+                out.line(&format!("= {}", vec_s(&adf.ac)));
+                if self.n <= 7 {
+                    let tts: Vec<String> = adf.ac.iter().map(|t| truth_table(&adf.bdd, *t, self.n).to_string()).collect();
+                    out.line(&format!("~ {}", if tts.is_empty() { "[]".into() } else { tts.join(" ") }));
+                } else {
+                    // beyond truth-table size: validated by isoCheck against the bridged stores instead
+                    out.line("~ large");
+                }
+                self.native.push((p.to_string(), adf));
+            }
+            "hybrid" | "hybridpre" => {
+                let bd = BdAdf::from_parser(parser);
+                let adf = bd.hybrid_step_opt(base == "hybridpre");
+                out.line("= built");
+                // the bridged store is handed to the model (verified validators: wfCheck, isoCheck)
+                out.line(&format!("adopt {p} {} {}", dump_nodes(&adf.bdd), vec_s(&adf.ac).replace(' ', ",")));
+                out.line("~ wf=true iso=true");
+                self.native.push((p.to_string(), adf));
+            }
+            "bio" => {
+                self.bio = Some(BdAdf::from_parser(parser));
+                out.line("= built");
+            }
+            _ => out.line("= bad-request"),
+        }
+    }
+
+    pub fn exec(&mut self, ws: &[&str], l: &str, out: &mut Out) -> bool {
+        match ws[0] {
+            "adf" if ws.len() == 2 => {
+                self.n = ws[1].parse().unwrap_or(0);
+                self.acs = vec![F::Bot; self.n];
+                self.native.clear();
+                self.bio = None;
+                out.line(l);
+                true
+            }
+            "ac" if ws.len() >= 3 => {
+                out.line(l);
+                let mut pos = 2;
+                if let (Ok(i), Some(f)) = (ws[1].parse::<usize>(), parse_toks(ws, &mut pos)) {
+                    if i < self.n {
+                        self.acs[i] = f;
+                    }
+                }
+                true
+            }
+            "adopt" | "presented" | "ordercheck" => true,
+            "present" if ws.len() == 5 => {
+                out.line(l);
+                out.flush();
+                let r = catch_unwind(AssertUnwindSafe(|| self.present(ws[1], ws[2], ws[3], ws[4])));
+                match r {
+                    Ok(Some(lines)) => {
+                        for x in lines {
+                            out.line(&x);
+                        }
+                    }
+                    Ok(None) => out.line("= bad-request"),
+                    Err(_) => out.line("= panic"),
+                }
+                true
+            }
+            "build" if ws.len() == 2 => {
+                out.line(l);
+                out.flush();
+                let p = ws[1].to_string();
+                if catch_unwind(AssertUnwindSafe(|| self.build(&p, out))).is_err() {
+                    out.line("= panic");
+                }
+                true
+            }
+            "grounded" | "complete" | "stable" | "stablepre" | "stablerew" | "stablerew2" | "stmca" | "stmcb"
+                if ws.len() == 2 =>
+            {
+                out.line(l);
+                out.flush();
+                let n = self.n;
+                let r = catch_unwind(AssertUnwindSafe(|| self.semantics(ws[0], ws[1])));
+                match r {
+                    Ok(Some((eq, sp))) => {
+                        out.line(&format!("= {eq}"));
+                        out.line(&format!("~ {sp}"));
+                    }
+                    Ok(None) => out.line("= bad-request"),
+                    Err(_) => {
+                        out.line("= panic");
+                        out.line("~ panic");
+                    }
+                }
+                let _ = n;
+                true
+            }
+            "ng" | "ngch" if ws.len() == 4 => {
+                out.line(l);
+                out.flush();
+                let r = catch_unwind(AssertUnwindSafe(|| self.ng(ws[0] == "ngch", ws[1], ws[2], ws[3] == "stable")));
+                match r {
+                    Ok(Some((eq, sp))) => {
+                        out.line(&format!("= {eq}"));
+                        out.line(&format!("~ {sp}"));
+                    }
+                    Ok(None) => out.line("= bad-request"),
+                    Err(_) => {
+                        out.line("= panic");
+                        out.line("~ panic");
+                    }
+                }
+                true
+            }
+            "adump" if ws.len() == 2 => {
+                out.line(l);
+                let s = match self.adf(ws[1]) {
+                    Some(a) => dump_nodes(&a.bdd),
+                    None => "bad-request".into(),
+                };
+                out.line(&format!("= {s}"));
+                if let Some(a) = self.adf(ws[1]) {
+                    let s = dump_nodes(&a.bdd);
+                    out.line(&format!("wfcheck {s}"));
+                    out.line("~ true");
+                    let nn = a.bdd.nodes.len();
+                    let n = self.n;
+                    out.line(&format!("# case adf n={n} nodes={nn}"));
+                }
+                true
+            }
+            "extraformula" if ws.len() >= 3 => {
+                out.line(l);
+                let mut pos = 2;
+                let f = parse_toks(ws, &mut pos);
+                let r = catch_unwind(AssertUnwindSafe(|| {
+                    let f = f?;
+                    let a = self.adf(ws[1])?;
+                    Some(build_formula(&mut a.bdd, &f))
+                }));
+                match r {
+                    Ok(Some(t)) => out.line(&format!("= {}", t.value())),
+                    Ok(None) => out.line("= bad-request"),
+                    Err(_) => out.line("= panic"),
+                }
+                true
+            }
+            "counts" if ws.len() == 2 => {
+                out.line(l);
+                let r = catch_unwind(AssertUnwindSafe(|| {
+                    let a = self.adf(ws[1])?;
+                    let c = a.formulacounts(false);
+                    Some(c.iter().map(|m| format!("{},{}", m.cmodels, m.models)).collect::<Vec<_>>().join(" "))
+                }));
+                match r {
+                    Ok(Some(s)) => out.line(&format!("= {}", if s.is_empty() { "-".into() } else { s })),
+                    Ok(None) => out.line("= bad-request"),
+                    Err(_) => out.line("= panic"),
+                }
+                true
+            }
+            "memo" if ws.len() == 2 => {
+                #[cfg(adf_obdd_verif)]
+                {
+                    let n = self.n;
+                    if let Some(a) = self.adf(ws[1]) {
+                        let t = dump_nodes(&a.bdd);
+                        let m = crate::fam_bdd::dump_tables(&a.bdd);
+                        out.line(&format!("memocheckn {n} {t} {m}"));
+                        out.line("~ ok");
+                        out.line(&format!("# case adf n={n} nodes={}", a.bdd.nodes.len()));
+                    }
+                }
+                let _ = l;
+                true
+            }
+            "memocheckn" => true,
+            _ => false,
+        }
+    }
+
+    /// one presentation of the current framework: permuted facts, sorting, renamed labels, layout
+    fn present(&mut self, perm: &str, sort: &str, lseed: &str, wseed: &str) -> Option<Vec<String>> {
+        let n = self.n;
+        let perm: Vec<usize> = perm.split(',').filter(|x| !x.is_empty()).map(|x| x.parse().ok()).collect::<Option<_>>()?;
+        if perm.len() != 2 * n {
+            return None;
+        }
+        let mut lr = Rng::new(lseed.parse().ok()?);
+        let mut wr = Rng::new(wseed.parse().ok()?);
+        // distinct labels from several classes: plain, keyword-like, numeric (lx and an orders differ)
+        let pool = ["a", "b", "x", "and", "andy", "or", "c", "neg1", "s", "ac", "iff", "xor", "imp", "10", "9", "2", "02", "B", "a10", "a9", "a2", "Zz", "v", "f"];
+        let mut labels: Vec<String> = Vec::new();
+        while labels.len() < n {
+            let cand = if lr.chance(1, 4) {
+                format!("{}{}", pool[lr.usize(pool.len())], lr.below(30))
+            } else {
+                pool[lr.usize(pool.len())].to_string()
+            };
+            if !labels.contains(&cand) {
+                labels.push(cand);
+            }
+        }
+        let ws = |wr: &mut Rng| -> String {
+            match wr.below(5) {
+                0 => " ".into(),
+                1 => "\n".into(),
+                2 => "  \t".into(),
+                _ => String::new(),
+            }
+        };
+        let mut txt = String::new();
+        for &k in &perm {
+            if k < n {
+                txt += &format!("s({}).{}", labels[k], ws(&mut wr));
+            } else {
+                let body = text(&self.acs[k - n], &labels);
+                // blanks are allowed around commas
+                let body = if wr.bool() { body.replace(',', &format!("{},{}", ws(&mut wr), ws(&mut wr))) } else { body };
+                txt += &format!("ac({}{},{}{}).{}", labels[k - n], ws(&mut wr), ws(&mut wr), body, ws(&mut wr));
+            }
+        }
+        let src: &'static str = Box::leak(txt.into_boxed_str());
+        let parser: &'static AdfParser<'static> = Box::leak(Box::new(AdfParser::default()));
+        if parser.parse()(src).is_err() {
+            return Some(vec!["= parse-error".into()]);
+        }
+        match sort {
+            "lx" => {
+                parser.varsort_lexi();
+            }
+            "an" => {
+                parser.varsort_alphanum();
+            }
+            _ => {}
+        }
+        let names = parser.var_container().names().read().ok()?.clone();
+        let order: Vec<usize> = names.iter().map(|nm| labels.iter().position(|l| l == nm)).collect::<Option<_>>()?;
+        let mut adf = Adf::from_parser(parser);
+        let bio = BdAdf::from_parser(parser);
+        let back = |v: &[Term]| -> String {
+            // canonical string in ORIGINAL statement order
+            let mut cs = vec!['?'; n];
+            for (pos, t) in v.iter().enumerate() {
+                cs[order[pos]] = if !t.is_truth_value() { 'u' } else if t.is_true() { 'T' } else { 'F' };
+            }
+            cs.into_iter().collect()
+        };
+        let set = |vs: &[Vec<Term>]| -> String {
+            let mut xs: Vec<String> = vs.iter().map(|v| back(v)).collect();
+            xs.sort();
+            if xs.is_empty() { "-".into() } else { xs.join(",") }
+        };
+        let ac = vec_s(&adf.ac);
+        let g = adf.grounded();
+        let c: Vec<Vec<Term>> = adf.complete().collect();
+        let st: Vec<Vec<Term>> = adf.stable().collect();
+        let (sd, rc) = crossbeam_channel::unbounded();
+        adf.two_val_nogood_channel(Heuristic::Simple, sd);
+        let tv: Vec<Vec<Term>> = rc.iter().collect();
+        let bg = bio.grounded();
+        let bc: Vec<Vec<Term>> = bio.complete().collect();
+        let bs: Vec<Vec<Term>> = bio.stable().collect();
+        let hex = |s: &str| s.bytes().map(|b| format!("{b:02x}")).collect::<String>();
+        let order_s = order.iter().map(|x| x.to_string()).collect::<Vec<_>>().join(",");
+        let perm_s = perm.iter().map(|x| x.to_string()).collect::<Vec<_>>().join(",");
+        Some(vec![
+            "= ok".into(),
+            format!("presented {perm_s} {order_s}"),
+            format!("= {} ; {} ; {} ; {} ; {}", ac, vec_s(&g), vecs_s(&c), vecs_s(&st), vecs_s(&tv)),
+            format!(
+                "~ grounded={} complete={} stable={} twoval={} biogrounded={} biocomplete={} biostable={}",
+                back(&g), set(&c), set(&st), set(&tv), back(&bg), set(&bc), set(&bs)
+            ),
+            format!(
+                "ordercheck {sort} {perm_s} {} {order_s}",
+                labels.iter().map(|l| hex(l)).collect::<Vec<_>>().join(",")
+            ),
+            "~ ok".into(),
+            format!("# case adf n={n} nodes={} sort={sort}", adf.bdd.nodes.len()),
+        ])
+    }
+
+    fn semantics(&mut self, what: &str, p: &str) -> Option<(String, String)> {
+        if p == "bio" {
+            let bio = self.bio.as_ref()?;
+            let (vs, ordered): (Vec<Vec<Term>>, bool) = match what {
+                "grounded" => (vec![bio.grounded()], true),
+                "complete" => (bio.complete().collect(), true),
+                "stable" => (bio.stable().collect(), true),
+                "stablerew" => (bio.stable_bdd_representation(), false),
+                "stablerew2" => {
+                    // the rewriting prepared at construction time
+                    let parser = self.parser()?;
+                    let b2 = BdAdf::from_parser_with_stm_rewrite(parser);
+                    (b2.stable_bdd_representation(), false)
+                }
+                _ => return None,
+            };
+            let eq = if ordered { seq_s(&vs) } else { set_s(&vs) };
+            let sp = if what == "complete" {
+                format!("first={} set={}", vs.first().map(|v| tfu(v)).unwrap_or("-".into()), set_s(&vs))
+            } else {
+                set_s(&vs)
+            };
+            return Some((eq, sp));
+        }
+        if what == "stablerew" {
+            // candidate order comes from biodivine, so this runs on its own object (the shared
+            // object stays comparable handle for handle) and is compared as a multiset
+            let parser = self.parser()?;
+            let bd = BdAdf::from_parser(parser);
+            let mut a = Adf::from_parser(parser);
+            let vs = a.stable_bdd_representation(&bd);
+            return Some((set_s(&vs), set_s(&vs)));
+        }
+        let a = self.adf(p)?;
+        let vs: Vec<Vec<Term>> = match what {
+            "grounded" => vec![a.grounded()],
+            "complete" => a.complete().collect(),
+            "stable" => a.stable().collect(),
+            "stablepre" => a.stable_with_prefilter().collect(),
+            "stmca" => a.stable_count_optimisation_heu_a().collect(),
+            "stmcb" => a.stable_count_optimisation_heu_b().collect(),
+            _ => return None,
+        };
+        let sp = if what == "complete" {
+            format!("first={} set={}", vs.first().map(|v| tfu(v)).unwrap_or("-".into()), set_s(&vs))
+        } else {
+            set_s(&vs)
+        };
+        Some((vecs_s(&vs), sp))
+    }
+
+    fn ng(&mut self, channel: bool, p: &str, heu: &str, stable: bool) -> Option<(String, String)> {
+        // Rand is not modelled step by step: it runs on its own object
+        let mut tmp: Option<Adf> = None;
+        if heu.starts_with("Rand:") {
+            let parser = self.parser()?;
+            tmp = Some(Adf::from_parser(parser));
+        }
+        let a = match tmp.as_mut() {
+            Some(t) => t,
+            None => self.adf(p)?,
+        };
+        TRACE.lock().unwrap().clear();
+        CALLS.store(0, Ordering::SeqCst);
+        let mut modelled = true;
+        let h: Heuristic = if let Some(seed) = heu.strip_prefix("Script:") {
+            SCRIPT_SEED.store(seed.parse().ok()?, Ordering::SeqCst);
+            Heuristic::Custom(&script_heu)
+        } else if let Some(seed) = heu.strip_prefix("Rand:") {
+            let s: u64 = seed.parse().ok()?;
+            let mut bytes = [0u8; 32];
+            bytes[..8].copy_from_slice(&s.to_le_bytes());
+            a.seed(bytes);
+            modelled = false;
+            Heuristic::Rand
+        } else {
+            match heu {
+                "Simple" => Heuristic::Simple,
+                "MinModMinPathsMaxVarImp" => Heuristic::MinModMinPathsMaxVarImp,
+                "MinModMaxVarImpMinPaths" => Heuristic::MinModMaxVarImpMinPaths,
+                _ => return None,
+            }
+        };
+        let vs: Vec<Vec<Term>> = if channel {
+            let (s, r) = crossbeam_channel::unbounded();
+            if stable {
+                a.stable_nogood_channel(h, s);
+            } else {
+                a.two_val_nogood_channel(h, s);
+            }
+            // the consumer loop ends only if the sender was dropped
+            let mut got = Vec::new();
+            for m in r {
+                got.push(m);
+            }
+            got
+        } else if stable {
+            a.stable_nogood(h).collect()
+        } else {
+            let (s, r) = crossbeam_channel::unbounded();
+            a.two_val_nogood_channel(h, s);
+            r.iter().collect()
+        };
+        let trace = TRACE.lock().unwrap().clone();
+        let eq = if modelled {
+            format!("{} # {}", vecs_s(&vs), vecs_s(&trace))
+        } else {
+            "-".to_string()
+        };
+        Some((eq, set_s(&vs)))
+    }
+}
+
+pub fn build_formula(bdd: &mut adf_bdd::obdd::Bdd, f: &F) -> Term {
+    match f {
+        F::Top => Term::TOP,
+        F::Bot => Term::BOT,
+        F::Atom(i) => bdd.variable(Var(*i)),
+        F::Not(a) => {
+            let x = build_formula(bdd, a);
+            bdd.not(x)
+        }
+        F::And(a, b) => {
+            let x = build_formula(bdd, a);
+            let y = build_formula(bdd, b);
+            bdd.and(x, y)
+        }
+        F::Or(a, b) => {
+            let x = build_formula(bdd, a);
+            let y = build_formula(bdd, b);
+            bdd.or(x, y)
+        }
+        F::Imp(a, b) => {
+            let x = build_formula(bdd, a);
+            let y = build_formula(bdd, b);
+            bdd.imp(x, y)
+        }
+        F::Xor(a, b) => {
+            let x = build_formula(bdd, a);
+            let y = build_formula(bdd, b);
+            bdd.xor(x, y)
+        }
+        F::Iff(a, b) => {
+            let x = build_formula(bdd, a);
+            let y = build_formula(bdd, b);
+            bdd.iff(x, y)
+        }
+    }
+}
